@@ -4,9 +4,9 @@ import TTV.Spec.C13
 import TTV.Drv.C12
 /-! Driver glue for C13: codecs between S-expressions and `Conc.SInput` / `Conc.STrace`.
 
-input  = `(flavour workers mkRaise intr mfaults tb sched)`, flavour = `suite`|`stream`,
+input  = `(history (run…) hints?)` (1..3 runs on one suite object) or one run; run = `(flavour workers mkRaise intr mfaults tb sched)`, flavour = `suite`|`stream`,
          worker = `(tests boom faults)` | `(tests boom faults polls)`, test = `(kind (tag…))` | `(kind (tag…) ((id kind tags omitted|explicitNone|(given n))…))`, mkRaise/intr = `none`|`(some n)`
-trace  = `(log sink result spawned joined live runs flags died finished)`
+trace  = `(runs (t…))` for a history of several runs, else one run's trace `(log sink result spawned joined live runs flags died finished)`
          sink entry = `((w id kind tags instant) hasTimestamp raised)`, tags/instant = `none`|`(some …)`, kind = `(st <status>)` | `(file T|F)`,
          result = `none` | `returned` | `(raised interrupt|makeTests|injected)`; `log` as in C12 -/
 namespace TTV.Drv.C13
@@ -107,8 +107,22 @@ def ofTrace (t : STrace) : Sexp :=
   .list [ofList ofEv t.log, ofList ofSinkEntry t.sink, ofResult t.result, ofList ofNat t.spawned, ofList ofNat t.joined,
          ofList ofNat t.liveAtReturn, ofList ofNat t.runs, ofList ofBool t.flags, ofList ofBool t.died, ofBool t.finished]
 
-def drv : PropDrv SInput STrace :=
-  { decI := input?, decT := trace?, encT := ofTrace, model := modelC, clauses := Spec.C13.clauses }
+/-- a history `(history (run…) hints?)` of runs on one suite object, or a single run (a history of one) -/
+def hinput? : Sexp → Option HInput
+  | .list [.atom "history", runs] => list? input? runs
+  | .list [.atom "history", runs, _hints] => list? input? runs
+  | s => (input? s).map fun i => [i]
+
+def htrace? : Sexp → Option HTrace
+  | .list [.atom "runs", ts] => list? trace? ts
+  | s => (trace? s).map fun t => [t]
+
+def ofHTrace : HTrace → Sexp
+  | [t] => ofTrace t
+  | ts => tag "runs" [ofList ofTrace ts]
+
+def drv : PropDrv HInput HTrace :=
+  { decI := hinput?, decT := htrace?, encT := ofHTrace, model := modelH, clauses := Spec.C13.clausesH }
 
 def handle : List Sexp → Sexp := drv.handle
 end TTV.Drv.C13
